@@ -104,9 +104,9 @@ func (g *genState) genOp() op {
 		{"CreateMessages", 8}, {"CreateMessageAndAdd", 6}, {"AddMessages", 8}, {"RemoveMessages", 6}, {"SetDeleted", 5},
 		{"DeleteMessages", 3}, {"AddFlag", 6}, {"RemoveFlag", 6}, {"SetFlags", 6}, {"MarkDeleted", 2}, {"MarkDeletedRemote", 1},
 		{"UpdateRemoteMessageID", 2}, {"ClearRecentOne", 2}, {"ClearRecentAll", 2},
-		{"AddDeletedSubscription", 1}, {"RemoveDeletedSubscription", 1}, {"StoreSettings", 1},
+		{"AddDeletedSubscription", 3}, {"RemoveDeletedSubscription", 1}, {"StoreSettings", 1},
 		{"FilterContains", 4}, {"GetMessagesFlags", 4}, {"Translate", 2}, {"Snapshot", 5}, {"GetIDPairs", 2}, {"GetCountAndUID", 3},
-		{"GetMailboxUID", 1}, {"GetMessageCount", 1}, {"GetRecentCount", 1}, {"GetDeletedSubscriptions", 1}, {"GetSettings", 1},
+		{"GetMailboxUID", 1}, {"GetMessageCount", 1}, {"GetRecentCount", 1}, {"GetDeletedSubscriptions", 3}, {"GetSettings", 1},
 		{"MailboxExistsID", 2}, {"MailboxExistsRemote", 1}, {"MailboxExistsName", 1}, {"GetMailboxByID", 1}, {"GetMailboxByRemote", 1},
 		{"GetMailboxByName", 1}, {"GetMailboxIDFromRemote", 1}, {"GetMailboxCount", 1}, {"GetAllMailboxRemoteIDs", 1},
 		{"GetMailboxFlags", 2}, {"MessageExists", 1}, {"MessageExistsRemote", 1}, {"TotalMessageCount", 1}, {"GetMessageRemote", 1},
@@ -250,7 +250,12 @@ func (g *genState) genOp() op {
 	case "GetMailboxFlags":
 		o.Box, o.N1 = g.box(), r.Pick(3)
 	case "AddDeletedSubscription":
-		o.N1, o.N2 = g.mboxNameIdx(), g.mboxRemote()
+		if r.Chance(0.6) { // a fresh (name, remote id) pair: the table grows to several rows
+			g.nextMbox++
+			o.N1, o.N2 = g.nextMbox, g.nextMbox
+		} else {
+			o.N1, o.N2 = g.mboxNameIdx(), g.mboxRemote()
+		}
 	case "RemoveDeletedSubscription", "MailboxExistsName", "GetMailboxByName":
 		o.N1 = g.mboxNameIdx()
 	case "StoreSettings":
@@ -444,6 +449,38 @@ func corpusScenarios() []scenario {
 			{K: "CreateMessageAndAdd", Box: 1, Reqs: []req{{ID: 5, Remote: 5, Flags: []string{`\deleted`}}}},
 			{K: "Snapshot", Box: 1}, {K: "GetMessagesFlags", Ids: []int{4, 5}}, {K: "AddMessages", Box: 2, Pairs: pairsOf([]int{4, 5, 1})},
 			{K: "SetDeleted", Box: 2, Ids: []int{5}, B: true}, {K: "Snapshot", Box: 2}}}),
+		mk("deleted-subscriptions-0-1-2-5", txn{Ops: []op{{K: "GetDeletedSubscriptions"}}, ReadOnly: true},
+			txn{Ops: []op{{K: "CreateMailbox", N1: 11, N2: 21, N3: 5, Flags: []string{}}, {K: "CreateMailbox", N1: 12, N2: 22, N3: 6, Flags: []string{}},
+				{K: "CreateMailbox", N1: 13, N2: 23, N3: 7, Flags: []string{}}, {K: "CreateMailbox", N1: 14, N2: 24, N3: 8, Flags: []string{}},
+				{K: "CreateMailbox", N1: 15, N2: 25, N3: 9, Flags: []string{}}, {K: "CreateMailbox", N1: 16, N2: 26, N3: 10, Flags: []string{}}, {K: "SetSubscribed", Box: 6, B: false}}},
+			txn{Ops: []op{{K: "DeleteMailbox", N1: 11}, {K: "GetDeletedSubscriptions"}}},
+			txn{Ops: []op{{K: "DeleteMailbox", N1: 12}, {K: "GetDeletedSubscriptions"}}},
+			txn{Ops: []op{{K: "DeleteMailbox", N1: 16}, {K: "DeleteMailbox", N1: 13}, {K: "DeleteMailbox", N1: 14}, {K: "DeleteMailbox", N1: 15}, {K: "GetDeletedSubscriptions"}}},
+			txn{Ops: []op{{K: "GetDeletedSubscriptions"}}, ReadOnly: true},
+			txn{Ops: []op{{K: "RemoveDeletedSubscription", N1: 23}, {K: "AddDeletedSubscription", N1: 31, N2: 41}, {K: "CreateMailbox", N1: 50, N2: 22, N3: 3, Flags: []string{}}, {K: "GetDeletedSubscriptions"}}}),
+		mk("every-read-returns-three-distinct-rows",
+			txn{Ops: []op{
+				{K: "CreateMailbox", N1: 31, N2: 41, N3: 101, Flags: []string{"fa", "fb", "fc"}, Flags2: []string{"pa", "pb", "pc"}, Flags3: []string{"aa", "ab", "ac"}},
+				{K: "CreateMailbox", N1: 32, N2: 42, N3: 102, Flags: []string{"fd"}, Flags2: []string{"pd"}, Flags3: []string{"ad"}},
+				{K: "CreateMailbox", N1: 33, N2: 43, N3: 103, Flags: []string{"fe", "ff"}, Flags2: []string{}, Flags3: []string{"ae", "af"}},
+				{K: "SetSubscribed", Box: 2, B: false},
+				{K: "CreateMessages", Reqs: []req{{ID: 1, Remote: 51, Flags: []string{"k1"}}, {ID: 2, Remote: 62, Flags: []string{"k2", "K3"}}, {ID: 3, Remote: 73, Flags: []string{`\Seen`, "k4", "k5"}}, {ID: 4, Remote: 84}}},
+				{K: "AddMessages", Box: 1, Pairs: [][2]int{{3, 73}, {1, 51}, {2, 62}}},
+				{K: "AddMessages", Box: 2, Pairs: [][2]int{{2, 62}, {4, 84}, {1, 51}}},
+				{K: "AddMessages", Box: 3, Pairs: [][2]int{{1, 51}}},
+				{K: "SetDeleted", Box: 1, Ids: []int{1}, B: true}, {K: "ClearRecentOne", Box: 1, N1: 2},
+				{K: "MarkDeleted", N1: 1}, {K: "MarkDeleted", N1: 3}, {K: "MarkDeletedRemote", N1: 84},
+				{K: "AddDeletedSubscription", N1: 91, N2: 81}, {K: "AddDeletedSubscription", N1: 92, N2: 82}, {K: "AddDeletedSubscription", N1: 93, N2: 83}}},
+			txn{ReadOnly: true, Ops: []op{
+				{K: "GetAllMailboxRemoteIDs"}, {K: "GetAllMailboxesNameAndRemoteID"}, {K: "GetAllMailboxesWithAttr"}, {K: "GetMailboxCount"},
+				{K: "GetMailboxByID", Box: 1}, {K: "GetMailboxByID", Box: 2}, {K: "GetMailboxByRemote", N1: 33}, {K: "GetMailboxByName", N1: 42},
+				{K: "GetMailboxFlags", Box: 1, N1: 0}, {K: "GetMailboxFlags", Box: 1, N1: 1}, {K: "GetMailboxFlags", Box: 1, N1: 2}, {K: "GetMailboxFlags", Box: 3, N1: 2},
+				{K: "GetIDPairs", Box: 1}, {K: "GetIDPairs", Box: 2}, {K: "Snapshot", Box: 1}, {K: "Snapshot", Box: 2},
+				{K: "FilterContains", Box: 2, Ids: []int{1, 2, 3, 4}}, {K: "GetMessagesFlags", Ids: []int{4, 3, 2, 1}}, {K: "Translate", Ids: []int{33, 31, 32, 99}},
+				{K: "GetMessageMailboxes", N1: 1}, {K: "GetMarkedDeleted"}, {K: "GetAllMessageIDs"}, {K: "GetDeletedSubscriptions"},
+				{K: "GetCountAndUID", Box: 2}, {K: "GetRecentCount", Box: 1}, {K: "GetMessageRemote", N1: 3}, {K: "GetMessageIDFromRemote", N1: 62},
+				{K: "GetMessageNoEdges", N1: 2}, {K: "GetImportedMessageData", N1: 3}, {K: "GetMessageDateAndSize", N1: 4}, {K: "GetMailboxName", Box: 3},
+				{K: "GetMailboxNameWithRemoteID", N1: 32}, {K: "GetMessageCountWithRemoteID", N1: 32}, {K: "GetMailboxIDFromRemote", N1: 33}}}),
 		mk("delete-mailbox-subscription", boot, txn{Ops: []op{{K: "DeleteMailbox", N1: 1}, {K: "GetDeletedSubscriptions"}, {K: "GetMessageMailboxes", N1: 1}}}),
 	}
 }
